@@ -26,7 +26,7 @@ theorem guards_tie_rename_demes (g : Graph) (r : Renaming) :
 theorem guards_sites_rename : Generated.guardSitesRename = [("Graph.rename_demes", 7, 3)] := by decide +kernel
 
 theorem guards_context_rename : Generated.guardContextRename =
-    [("guard_rename_not_mapping", []), ("guard_rename_not_str", ["for deme in graph.demes"]),
+    [("guard_rename_not_mapping", []), ("guard_rename_not_str", ["for v1 in v0.demes"]),
      ("guard_rename_collision", [])] := by decide +kernel
 
 /-- the statements of `rename_demes` that are not updates, each with the number of updates that precede it:
@@ -36,25 +36,25 @@ theorem guards_rename_other : Generated.renameDemesOther =
     [
      ("if not isinstance(names, Mapping)", [], 0),
      ("raise TypeError('names is not a dictionary')", ["if not isinstance(names, Mapping)"], 0),
-     ("graph = copy.deepcopy(self)", [], 0),
-     ("if not isinstance(deme.name, str)", ["for deme in graph.demes"], 7),
-     ("raise TypeError(f'deme name {deme.name!r} is not a string')", ["for deme in graph.demes", "if not isinstance(deme.name, str)"], 7),
-     ("valid_deme_name(deme, None, deme.name)", ["for deme in graph.demes"], 7),
-     ("if len(graph._deme_map) != len(graph.demes)", [], 7),
-     ("raise ValueError('deme names must be unique after renaming')", ["if len(graph._deme_map) != len(graph.demes)"], 7),
-     ("return graph", [], 7)] := by decide +kernel
+     ("v0 = copy.deepcopy(self)", [], 0),
+     ("if not isinstance(v1.name, str)", ["for v1 in v0.demes"], 7),
+     ("raise TypeError(f'deme name {v1.name!r} is not a string')", ["for v1 in v0.demes", "if not isinstance(v1.name, str)"], 7),
+     ("valid_deme_name(v1, None, v1.name)", ["for v1 in v0.demes"], 7),
+     ("if len(v0._deme_map) != len(v0.demes)", [], 7),
+     ("raise ValueError('deme names must be unique after renaming')", ["if len(v0._deme_map) != len(v0.demes)"], 7),
+     ("return v0", [], 7)] := by decide +kernel
 
 /-- a `Renaming` is a mapping and its values are strings: the two `TypeError`s cannot happen in the Model -/
 theorem guard_rename_types_meaning :
     Generated.guard_rename_not_mapping (isinstance_names_Mapping := true) = false
-    ∧ Generated.guard_rename_not_str (isinstance_deme_name_str := true) = false := by
+    ∧ Generated.guard_rename_not_str (isinstance_v1_name_str := true) = false := by
   unfold Generated.guard_rename_not_mapping Generated.guard_rename_not_str
   decide
 
 /-- `len(graph._deme_map) != len(graph.demes)` on the renamed graph: two demes got the same name -/
 theorem guard_rename_collision_meaning (g : Graph) (r : Renaming) :
-    Generated.guard_rename_collision (len_graph_deme_map := (renameDemes g r).index.length)
-        (len_graph_demes := (renameDemes g r).demes.length) = true
+    Generated.guard_rename_collision (len_v0_deme_map := (renameDemes g r).index.length)
+        (len_v0_demes := (renameDemes g r).demes.length) = true
       ↔ ¬ ((renameDemes g r).demes.map (·.name)).Nodup := by
   unfold Generated.guard_rename_collision
   have h := rebuildIndex_length_iff (renameDemes g r).demes
@@ -65,8 +65,8 @@ theorem guard_rename_collision_meaning (g : Graph) (r : Renaming) :
 /-- the Model's validation is the source's: `valid_deme_name` (an identifier) on every resulting name, and no collision -/
 theorem guards_tie_rename_check (g : Graph) (r : Renaming) :
     renameNamesOk g r = (((renameDemes g r).demes.map (·.name)).all isIdentifier
-      && !Generated.guard_rename_collision (len_graph_deme_map := (renameDemes g r).index.length)
-          (len_graph_demes := (renameDemes g r).demes.length)) := by
+      && !Generated.guard_rename_collision (len_v0_deme_map := (renameDemes g r).index.length)
+          (len_v0_demes := (renameDemes g r).demes.length)) := by
   have hn : (renameDemes g r).demes.map (·.name) = g.demes.map (fun d => r.apply d.name) := by
     simp [renameDemes, List.map_map, Function.comp_def]
   have hc := guard_rename_collision_meaning g r
@@ -75,10 +75,10 @@ theorem guards_tie_rename_check (g : Graph) (r : Renaming) :
   simp only [List.map_map, Function.comp_def]
   congr 1
   by_cases hnd : (g.demes.map (fun d => r.apply d.name)).Nodup
-  · have : Generated.guard_rename_collision (len_graph_deme_map := (renameDemes g r).index.length)
-        (len_graph_demes := (renameDemes g r).demes.length) = false := by
-      cases hb : Generated.guard_rename_collision (len_graph_deme_map := (renameDemes g r).index.length)
-        (len_graph_demes := (renameDemes g r).demes.length) with
+  · have : Generated.guard_rename_collision (len_v0_deme_map := (renameDemes g r).index.length)
+        (len_v0_demes := (renameDemes g r).demes.length) = false := by
+      cases hb : Generated.guard_rename_collision (len_v0_deme_map := (renameDemes g r).index.length)
+        (len_v0_demes := (renameDemes g r).demes.length) with
       | false => rfl
       | true => exact absurd hnd (hc.mp hb)
     rw [this]; simp [hnd]
@@ -101,8 +101,8 @@ example : (applyUpdates exRenaming (Generated.renameDemesUpdates.filter (fun u =
 example : (applyUpdates exRenaming [(["demes"], "name", "RenameEach", "names")] exGraphM).isSome = false := by decide +kernel
 -- renaming `a` to `b` collides: the rebuilt index has one entry for two demes
 example : renameNamesOk exGraphM [("a", "b")] = false
-    ∧ Generated.guard_rename_collision (len_graph_deme_map := (renameDemes exGraphM [("a", "b")]).index.length)
-        (len_graph_demes := (renameDemes exGraphM [("a", "b")]).demes.length) = true
+    ∧ Generated.guard_rename_collision (len_v0_deme_map := (renameDemes exGraphM [("a", "b")]).index.length)
+        (len_v0_demes := (renameDemes exGraphM [("a", "b")]).demes.length) = true
     ∧ renameNamesOk exGraphM exRenaming = true := by decide +kernel
 
 end sensitivity
